@@ -118,6 +118,10 @@ def extract(config="W", repo=REPO, quiet=True):
         t0 = time.time()
         cmd = ["cargo", "+nightly", "check", "--offline"] + args
         p = subprocess.run(cmd, cwd=repo, env=env, stdout=subprocess.PIPE, stderr=subprocess.STDOUT, text=True)
+        if p.returncode != 0 and "error[E" not in p.stdout and "error: could not compile" not in p.stdout:
+            # not a compile error of the tree (resource contention with other builds on the machine): one retry
+            time.sleep(2)
+            p = subprocess.run(cmd, cwd=repo, env=env, stdout=subprocess.PIPE, stderr=subprocess.STDOUT, text=True)
         if p.returncode != 0:
             shutil.rmtree(out, ignore_errors=True)
             raise ExtractionError("cargo check failed for config %s:\n%s" % (config, p.stdout[-4000:]))
